@@ -334,6 +334,9 @@ func (l *NDNLPLinkService) handleIncomingFrame(frame []byte) {
 			core.LogTrace(l, "Received fragment ", fragIndex, " of ", fragCount, " for ", baseSequence)
 			if fragIndex == 0 && fragCount == 1 {
 				// Bypass reassembly since only one fragment
+			} else if fragCount == 0 || fragIndex >= fragCount || fragCount > defn.MaxNDNPacketSize {
+				core.LogWarn(l, "Received NDNLPv2 frame with invalid FragIndex/FragCount - DROP")
+				return
 			} else {
 				fragment = l.reassemblePacket(LP, baseSequence, fragIndex, fragCount)
 				if fragment == nil {
@@ -397,10 +400,13 @@ func (l *NDNLPLinkService) reassemblePacket(
 	fragIndex uint64,
 	fragCount uint64,
 ) enc.Wire {
-	_, hasSequence := l.partialMessageStore[baseSequence]
+	partial, hasSequence := l.partialMessageStore[baseSequence]
 	if !hasSequence {
 		// Create map entry
 		l.partialMessageStore[baseSequence] = make([][]byte, fragCount)
+	} else if uint64(len(partial)) != fragCount {
+		core.LogWarn(l, "Received NDNLPv2 fragment with inconsistent FragCount - DROP")
+		return nil
 	}
 
 	// Insert into PartialMessageStore
